@@ -1125,6 +1125,8 @@ class Interp:
             if base == "diff":
                 return SArr(L - 1, [(0, L - 1, d.sub(up, v))])
             return SArr(L, [(0, 1, d.sub(up, v)), (1, L - 1, d.div(d.sub(up, dn), d.const(2))), (L - 1, L, d.sub(v, dn))])
+        if base == "full" and len(args) == 2 and isinstance(args[0], NLin) and self.stn is not None:
+            return SArr(args[0], [(0, args[0], self.lift(args[1]))])
         if base == "zeros" and args and isinstance(args[0], NLin) and self.stn is not None:
             return SArr(args[0], [(0, args[0], self.dom.const(0))])
         if base == "arange" and len(args) == 1 and isinstance(args[0], NLin):
